@@ -121,10 +121,10 @@ CHECKS = {
 # additions made in the second half of the build (DESIGN.md 10.6 / 10.7): appended to the entries above
 ADDENDA = {
     "C01": dict(text=" A data-dependent precision switch inside these operations forks the evaluation; the identities are required in every world."),
-    "C02": dict(technique="; abstract interpretation of exp over truncated power series in the tangent (R-SERIES, engine/jetnum.py)",
+    "C02": dict(technique="; abstract interpretation of exp over truncated power series in the tangent (R-SERIES, engine/jetnum.py); first-order floating-point error analysis of the closed-form arms (R-ROUND, engine/rounding.py)",
                 text=" R-SERIES.exp: for SO2, SE2, SO3, SE3, SE_2_3, SGal3 the code of exp interpreted over truncated power series with exact rational coefficients (all directions at once) gives T(exp t) = sum_{k<=5} hat(t)^k/k! cell by cell, in the closed-form world and in every small-angle world (residual monomials bounded by |coef| * theta_s^a against the R-JET tolerances for double and float), hat being the table proved by C07.",
-                note=" Beyond order 5 of the Taylor expansion at the origin nothing is decided.", design="3/C02, 10.6, 10.7"),
-    "C03": dict(technique="; half-turn world; abstract interpretation of log(exp t) over truncated power series (R-SERIES)",
+                note=" R-ROUND (10.11): the first-order rounding-error bound of every value written by exp in a closed-form arm, worst over a ladder of rotation magnitudes from the switch-over (and in the mixed worlds between two switch-overs of one function), stays below 1e-6 (double) / 1e-4 (float) relative to max(1, |value|). Beyond order 5 of the Taylor expansion at the origin nothing is decided.", design="3/C02, 10.6, 10.7, 10.11"),
+    "C03": dict(technique="; half-turn world; abstract interpretation of log(exp t) over truncated power series (R-SERIES); first-order floating-point error analysis of the closed-form arms (R-ROUND)",
                 text=" R-JET.halfturn: SO3::log at the exact half turn (every comparison decided by exact substitution) returns +-pi*v. R-SERIES.log: for the six groups the code of log applied to the code of exp gives log(exp t) = t + O(|t|^6) coefficient by coefficient, in the closed-form world and in every small-angle world.",
                 design="3/C03, 10.6, 10.7"),
     "C05": dict(technique="; first-order floating-point error analysis of the closed-form arms (R-ROUND, engine/rounding.py); exact polynomial Jacobians of compose/inverse/act (R-POLY.jac); power-series interpretation of the Jacobians written by exp and log (R-SERIES)",
@@ -139,7 +139,7 @@ ADDENDA = {
                 text=" R-END: for SLERP, CUBIC and CNSMOOTH (degrees 1..4) the group term of the routine with the weights evaluated exactly at t = 0 / 1 reduces to A / B in the free group over {A, B, exp(v)} using associativity, X X^-1 = e, exp(0) = e, exp(-v) = exp(v)^-1, exp(log W) = W - for arbitrary end velocities and every group (96 identities). R-SERIES.slerp (semantic, spelling-independent): for SO2, SE2, SO3, with A = exp(e x), B = A exp(e y) and symbolic tau, T(interpolate_slerp(A,B,tau)) = T(A) sum_k (tau e hat(y))^k/k! through order 3, i.e. the geodesic law log(A^-1 m(tau)) = tau log(A^-1 B) in every direction.",
                 note_replace="A genuine defect found by R-END (interpolate_cubic returned B at t=0 and A at t=1) was repaired by a fix: commit. NOT decided: equivariance, interior values, rounding.", design="3/C15, 10.7"),
     "C17": dict(text=" R-LIN.window: window t of the control-point loop nest takes trajectory[t*(degree-1)+n] (exact evaluation of the subscript for degree 2..6 with symbolic loop counters).", design="3/C17, 10.9"),
-    "C16": dict(text=" R-ITER.fresh: nothing derived from the iterate before the max_iterations loop is read inside it without being recomputed in the same pass.", design="3/C16, 10.7"),
+    "C16": dict(text=" R-ITER.fresh: nothing derived from the iterate before the max_iterations loop is read inside it without being recomputed in the same pass. R-ITER.stop (a structural necessary condition of the equivariance clauses): every test that leaves the max_iterations loop depends on the iterate only through tangent-typed values (group differences) - resolving the non-tangent locals it reads through their definitions in the loop never reaches the iterate variable itself.", technique="; def-use closure of the stopping tests (R-ITER.stop)", design="3/C16, 10.7, 10.12"),
 }
 for _k, _a in ADDENDA.items():
     _c = CHECKS[_k]
